@@ -240,6 +240,7 @@ CHECKS = {
         level="fault_enumeration",
         rule=("E: every variant of every binding enumeration (enumerated through the generated From<c_int>, 0..1100) converted to the native type, and every native value (all 256 octets through the library's own from(u8) constructors for command status / function code / control code; exhaustive lists guarded by a compile-time exhaustive match for the rest) converted to the binding type: normalised Debug names equal, no two sources collapse into one target unless the target lacks the variant, identity on round trips where both directions exist; "
               "S: struct conversions with distinct sentinels in every field (all 256 flag octets, three time qualities x boundary times, update options, seven measurement structs both ways, IIN1/IIN2 all 256 octets each, event buffer sizes, restart delay, application IIN 16 combinations, class-zero fields one at a time, every static x event variation x dead-band of the seven point configurations, CROB); "
+              "S2: the channel, association and outstation configuration structures with a distinct sentinel in every field (addresses, eight buffer maxima, buffer sizes, four decode levels, time-outs in their declared units, features, limits, class-zero switches), compared field by field with the native value built from the same numbers, and each out-of-range value refused on its own; "
               "K: every callback adapter of the binding crate (the library's traits implemented on the generated C interface structs: ReadHandler with all 13 measurement iterators and fragment brackets, AssociationInformation, AssociationHandler, ControlHandler with the five control types, OutstationApplication, OutstationInformation, and the eleven promise callbacks) filled with recording extern \"C\" callbacks: the native trait method is called with generated arguments and which callback ran, each argument, every iterator item in order, the database pointer and every returned value are compared with what went in; the request / command-set / dead-band builder entry points are driven with random call sequences next to the native builders and the encoded object headers compared octet by octet; "
               "D: random add / remove / update2 / update_flags / get / octet-string add, remove, update (both entry points, 0..256 octets) / device-attribute definition (seven value types, default and private sets, writable or not) sequences applied through the crate-private binding entry points to one database and natively to another: same results, same get, same wire image"),
         runs=[dict(check="c20", driver="driver_ffi", timeout_s=900),
@@ -248,7 +249,8 @@ CHECKS = {
         required=["variants_map_to_namesake", "round_trips_ok", "flags_ok", "timestamps_ok", "measurements_in_ok", "measurements_out_ok", "iin_ok", "differential_sequences_ok", "differential_image_octets", "conversion_Variation(in)", "conversion_CommandStatus(out)", "conversion_TaskType", "conversion_TaskError->FileError", "permissions_ok",
                   "callbacks_ok_read_handler", "callbacks_ok_association_information", "callbacks_ok_get_current_time", "callbacks_ok_control_handler", "callbacks_ok_control_status_returned",
                   "callbacks_ok_outstation_application", "callbacks_ok_application_results", "callbacks_ok_outstation_information", "callbacks_ok_promise_completion", "callbacks_ok_promise_dropped",
-                  "builders_ok_request", "builders_ok_command_set", "builders_ok_dead_band_request", "differential_attr_definitions", "differential_octet_string_ops"],
+                  "builders_ok_request", "builders_ok_command_set", "builders_ok_dead_band_request", "differential_attr_definitions", "differential_octet_string_ops",
+                  "configs_ok_master_channel", "configs_ok_association", "configs_ok_outstation", "configs_invalid_refused"],
         thorough_scale=20.0,
         abnormal_exit_is_violation=True,
         assumptions=HARNESS_TRUST + ["'like-named' is decided on Debug names after removing case, underscores and payloads, with an explicit rename table (Unknown -> Nul for trip-close / operation codes that the binding cannot express)"],
